@@ -155,3 +155,72 @@ class MeshOccurrencesIn:
 
     derived_rule = "LISTING-CARDINALITY"
     modifies = ()
+
+
+@contract("MeshPatt.occurrences_in@4", params={"self": "Mesh", "patt": "Perm", "args#0": "opaque", "args#1": "opaque"}, returns="TupleList", props=P)
+class MeshOccurrencesInExtra(MeshOccurrencesIn):
+    # the same entry point called with two further positional arguments (which the body never inspects):
+    # this is how the bivincular-type subclasses call it
+    def requires(c, self, patt, a0, a1):
+        return c.and_(c.is_mesh(self), c.is_perm(patt))
+
+    def ensures(c, self, patt, a0, a1, result):
+        return MeshOccurrencesInPerm.ensures(c, self, patt, result)
+
+    def derived(c, self, patt, a0, a1, result):
+        return c.len(result) == c.ghost("OCCN", self, patt)
+
+    @staticmethod
+    def runtime_domain(quick):
+        import random
+
+        from pyvc import policy
+
+        rng = random.Random(5)
+        ms, ps = policy.domain("Mesh", quick), policy.domain("Perm", quick)
+        return [(rng.choice(ms), rng.choice(ps), (), {}) for _ in range(400)]
+
+
+def _bivincular_domain(quick):
+    """bivincular, vincular and covincular patterns of length <= 3 with every adjacency set x permutations <= 4"""
+    import itertools
+    import random
+
+    from vlib import domains as D
+    from vlib import repo
+
+    ns = repo.namespace()
+    rng = random.Random(9)
+    out = []
+    targets = D.perms_upto(4)
+    for p in D.perms_upto(2 if quick else 3):
+        n = len(p)
+        subsets = [s for r in range(n + 2) for s in itertools.combinations(range(n + 1), r)]
+        for adj in subsets:
+            objs = [ns["VincularPatt"](p, adj), ns["CovincularPatt"](p, adj)]
+            for adj2 in rng.sample(subsets, min(3, len(subsets))):
+                objs.append(ns["BivincularPatt"](p, adj, adj2))
+            for o in objs:
+                for q in rng.sample(targets, 6):
+                    out.append((o, q))
+    return out
+
+
+@contract("BivincularPatt.occurrences_in", params={"self": "Mesh", "patt": "Perm"}, returns="TupleList", props=P)
+class BivincularOccurrencesIn:
+    # bivincular / vincular / covincular patterns: occurrences of the mesh pattern they denote
+    def requires(c, self, patt):
+        return c.and_(c.is_mesh(self), c.is_perm(patt))
+
+    def ensures(c, self, patt, result):
+        return MeshOccurrencesInPerm.ensures(c, self, patt, result)
+
+    def derived(c, self, patt, result):
+        return c.len(result) == c.ghost("OCCN", self, patt)
+
+    derived_rule = "LISTING-CARDINALITY"
+    modifies = ()
+
+
+BivincularOccurrencesIn.runtime_domain = staticmethod(_bivincular_domain)
+BivincularOccurrencesIn.runtime_cap = 1500
